@@ -162,7 +162,7 @@ Definition key_ok (f : kfmt) (s : str) : bool :=
 Definition ty_ok (env : enum_env) (t : fty) (v : value) : bool :=
   match t, v with
   | TInt _ (Some r) _, VInt z => int_rule_ok r z
-  | TStr (Some r) _, VStr s => str_rule_ok r s
+  | TStr _ (Some r) _, VStr s => str_rule_ok r s
   | TBytes (Some r), VBytes b => len_rule_ok r b
   | TBool (Some (Some c)) _, VBool b => Bool.eqb b c
   | TEnum r _, VEnum n =>
@@ -181,7 +181,7 @@ Definition is_primary (t : pty) : bool :=
 
 Definition is_msg_ty (t : fty) : bool :=
   match t with
-  | TDate _ _ | TDecimal _ _ | TTimestamp _ | TAny _ | TObject _ | TOneof _ => true
+  | TDate _ _ | TDecimal _ _ | TTimestamp _ | TAny _ _ _ | TObject _ | TOneof _ => true
   | _ => false
   end.
 
@@ -315,12 +315,27 @@ Definition validate_sem (defined : list Z) (o : fout) (fv0 : fvalue) : bool :=
            end
   end.
 
+(* a message: every field is validated on its own (j5 emits no message-level,
+   oneof-level or cross-field constraint) *)
+Fixpoint validate_obj (defined : list Z) (os : list fout) (fvs : list fvalue) : bool :=
+  match os, fvs with
+  | [], [] => true
+  | o :: r, v :: s => validate_sem defined o v && validate_obj defined r s
+  | _, _ => false
+  end.
+Fixpoint rule_obj (env : enum_env) (ds : list prop) (fvs : list fvalue) : bool :=
+  match ds, fvs with
+  | [], [] => true
+  | d :: r, v :: s => rule_sem env d v && rule_obj env r s
+  | _, _ => false
+  end.
+
 End Sem.
 
 (* ---- typing of values against a declaration ------------------------------- *)
 Definition value_typed (t : fty) (v : value) : bool :=
   match t, v with
-  | TInt _ _ _, VInt _ | TStr _ _, VStr _ | TBytes _, VBytes _ | TBool _ _, VBool _
+  | TInt _ _ _, VInt _ | TStr _ _ _, VStr _ | TBytes _, VBytes _ | TBool _ _, VBool _
   | TEnum _ _, VEnum _ | TKey _ _ _, VStr _ => true
   | TFloat _ _, _ => false
   | t, VMsg => is_msg_ty t
